@@ -103,6 +103,22 @@ def runner(rep, tier, seed, replay):
     for c in rnd.sample(hist, min(len(hist), 300 if tier == "quick" else 3000)):
         jobs.append({"entry": "c", "text": restated(c), "env": {}, "timeout": 4, "want_files": False})
         meta.append((c, "dq", restated(c)))
+    # ... and after `unset` a reference is empty, also when the name had both a shell-local and an exported value
+    unset_cases = []
+    for c in rnd.sample(hist, min(len(hist), 60 if tier == "quick" else 600)):
+        names = sorted(c["env"])
+        n0 = names[0]
+        pre = " ; ".join("%s=stale ; export %s='%s'" % (n, n, v) for n, v in sorted(c["env"].items()))
+        line = "%s ; unset %s ; vmk 0 3 ; vpa \"[$%s][${%s}]\"" % (pre, n0, n0, n0)
+        unset_cases.append((n0, line))
+    ures = run_cases([{"entry": "c", "text": ln, "env": {}, "timeout": 6, "want_files": False} for _, ln in unset_cases])
+    for (n0, ln), res in zip(unset_cases, ures):
+        rep.cov["evaluations"] += 1
+        pa = [r.get("argv") for r in res.get("log", []) if r.get("h") == "pa"]
+        if res.get("timed_out") or pa != [["[][]"]]:
+            rep.violation("unset-stale", "`%s`: after unset the references gave %s, expected [['[][]']]" % (ln, pa),
+                          {"case": {"word": "$" + n0, "env": {}, "expected": "", "feat": {}}, "form": "dq", "text": ln, "env": {}},
+                          {"form": "unset", "self_ref": False, "value_has_dollar": False, "nrefs": 2})
     results = run_cases(jobs)
     # hangs are re-run once with a 10x budget before they are called violations
     slow = [i for i, res in enumerate(results) if res.get("timed_out")]
